@@ -19,9 +19,11 @@ TARGETS = {
     "C17": ["teehistorian"],
     "C18": ["serverbrowse"],
 }
-RUNS = {"packet6": 3_000_000, "packet7": 3_000_000, "huffman_decode": 2_000_000, "huffman_compress": 1_000_000,
-        "snap_read": 1_500_000, "delta_apply": 1_500_000, "gamenet": 3_000_000, "datafile": 300_000,
-        "teehistorian": 500_000, "serverbrowse": 3_000_000}
+# fixed work per campaign, sized for roughly 2-5 minutes per target on an idle 16-core machine
+# (the oracle inside the target is much heavier than a bare parser call); scale with VERIF_FUZZ_SCALE
+RUNS = {"packet6": 400_000, "packet7": 400_000, "huffman_decode": 400_000, "huffman_compress": 300_000,
+        "snap_read": 300_000, "delta_apply": 300_000, "gamenet": 600_000, "datafile": 100_000,
+        "teehistorian": 150_000, "serverbrowse": 600_000}
 
 def env():
     e = dict(os.environ)
@@ -53,10 +55,12 @@ def run_target(pid, target, seed, scale):
     m = re.search(r"stat::number_of_executed_units:\s+(\d+)", out)
     if m:
         info["runs"] = int(m.group(1))
-    arts = sorted(os.listdir(os.path.join(work, "artifacts")))
+    art_dirs = [os.path.join(work, "artifacts"), os.path.join(ROOT, "fuzz", "artifacts", target)]
+    found = [(d, f) for d in art_dirs if os.path.isdir(d) for f in sorted(os.listdir(d))]
+    arts = [f for _, f in found]
     violation = None
     if arts:
-        a = os.path.join(work, "artifacts", arts[0])
+        a = os.path.join(found[0][0], found[0][1])
         data = open(a, "rb").read()
         kind = arts[0].split("-")[0]
         info["artifact_kind"] = kind
@@ -81,6 +85,7 @@ def run_target(pid, target, seed, scale):
     elif p.returncode != 0:
         info["inconclusive"] = "cargo fuzz exited %d without an artifact: %s" % (p.returncode, out[-600:])
     shutil.rmtree(work, ignore_errors=True)
+    shutil.rmtree(os.path.join(ROOT, "fuzz", "artifacts", target), ignore_errors=True)
     return info, violation
 
 def main():
